@@ -6,7 +6,7 @@ import ast
 from ..model import IG, FST, RULES
 from . import names
 from .common import site_of
-from .flow import (Oblig, calls, events, deps_of, arg_deps, SELF, P, result_locs, has_fact)
+from .flow import (own, Oblig, calls, events, deps_of, arg_deps, SELF, P, result_locs, has_fact)
 
 RO = "pyformlang.indexed_grammar.rule_ordering.RuleOrdering"
 EXPLANATION = (
@@ -28,7 +28,7 @@ def run(eng, rep, tier):
     # -------------------------------------------------------------- C17.1 configuration forwarding
     fi = prog.method("IndexedGrammar", "remove_useless_rules")
     summ = interp.run_entry(fi, IG)
-    news = [ev for ev in summ.events if ev.kind == "new" and ev.callee == IG]
+    news = [ev for ev in own(summ) if ev.kind == "new" and ev.callee == IG]
     SV = ("self", ("start_variable",))
     fwd = bool(news) and all((len(ev.args) > 1 and SV in deps_of(ev.args[1])) or
                              (dict(ev.kwargs).get("start_variable") is not None and SV in deps_of(dict(ev.kwargs)["start_variable"]))
@@ -38,7 +38,7 @@ def run(eng, rep, tier):
               "remove_useless_rules builds the derived grammar without start_variable: it answers for the default `S` "
               "whenever the user's start variable is another one", summ,
               site=(news[0].site.to_json() if news else site_of(prog, fi, fi.node)))
-    rnews = [ev for ev in summ.events if ev.kind == "new" and ev.callee == RULES]
+    rnews = [ev for ev in own(summ) if ev.kind == "new" and ev.callee == RULES]
     OPT = ("self", ("rules", "_optim"))
     okopt = bool(rnews) and all(len(ev.args) > 1 and any(isinstance(d, tuple) and isinstance(d[1], tuple) and d[1][-1:] in (("_optim",), ("optim",))
                                                          for d in deps_of(ev.args[1])) for ev in rnews)
@@ -52,7 +52,7 @@ def run(eng, rep, tier):
               "the root rule of the product grammar is built from the grammar's start variable",
               "FST.intersection never reads indexed_grammar.start_variable: the root rule is built from the literal `S`", sf,
               site=site_of(prog, ff, ff.node))
-    rr = [ev for ev in sf.events if ev.kind == "new" and ev.callee == RULES]
+    rr = [ev for ev in own(sf) if ev.kind == "new" and ev.callee == RULES]
     ob.decide("R9", "C17.1", ff, "optim-forwarded", bool(rr) and all(len(ev.args) > 1 and any(
         isinstance(d, tuple) and isinstance(d[1], tuple) and d[0] == "p:indexed_grammar" and d[1][-1:] in (("_optim",), ("optim",))
         for d in deps_of(ev.args[1])) for ev in rr), "the ordering option of the grammar is forwarded",
@@ -109,7 +109,7 @@ def run(eng, rep, tier):
     for cname in ("ConsumptionRule", "DuplicationRule", "ProductionRule", "EndRule"):
         f = prog.method(cname, "__eq__")
         s = interp.run_entry(f, prog.cls(cname).qname)
-        pc = [ev for ev in s.events if ev.kind == "propcall"]
+        pc = [ev for ev in own(s) if ev.kind == "propcall"]
         if pc:
             rep.violation("R7", "C17.3", f.qname, "property-called",
                           "%s.__eq__ calls `other.%s()`, but %s is a property in every rule class (its siblings read it "
